@@ -79,7 +79,8 @@ def _gen_case_a(seed: int, tier: str, index: int) -> Dict[str, Any]:
     cfg = {"profile": profile, "net": net, "loop": loop_cfg, "tables": tables, "initial": initial, "timeout": timeout,
            "use_real": use_real, "filter": filt, "pick": rng.randrange(100), "more_rounds": more,
            # the client's event handler may really suspend (it is awaited from inside the hello consumer task)
-           "handler_suspend_p": rng.choice([0.0, 0.0, 0.5, 1.0]), "handler_suspend_max": rng.choice([0.05, 0.3, 1.5])}
+           "handler_suspend_p": rng.choice([0.0, 0.0, 0.5, 1.0]), "handler_suspend_max": rng.choice([0.05, 0.3, 1.5]),
+           "other_tasks": rng.choice([[], [], [["done"]], [["done", "live"]], [["done", "done", "done"], ["live", "done"]], [["live"], ["done"]]])}
     return {"property": PROP, "world": "A", "seed": seed, "cfg": cfg, "plan": responders}
 
 
@@ -167,7 +168,22 @@ async def scenario(world: WorldA) -> None:
                 res.fault("client_handler_suspend")
                 await asyncio.sleep(dt)
 
-        taskman = AsyncTasks()
+        # the locator shares its task manager with the rest of the client (the spa manager *is* the task manager): other tasks, some of
+        # them already finished and not yet tidied, are registered before and between discoveries
+        if taskman is None:
+            taskman = AsyncTasks()
+        other = cfg.get("other_tasks") or []
+        for j, kind in enumerate(other[ri % len(other)] if other else []):
+            async def _short():
+                return None
+
+            async def _long():
+                await asyncio.sleep(1e6)
+            taskman.add_task(_short() if kind == "done" else _long(), f"Other task {ri}.{j}", "SPA")
+        if other:
+            await asyncio.sleep(0)
+            await asyncio.sleep(0)
+            res.probe("task_manager_shared_with_other_tasks")
         locator = GeckoAsyncLocator(taskman, on_event, **kw)
         n_ep = len(world.loop.transports)
         S = world.now()
